@@ -306,30 +306,6 @@ func runGCM(c gcmCase, r *pb.Rec) error {
 	} else if err == nil {
 		return fmt.Errorf("AESGCMDecrypt accepted corrupted input (where=%d bit=%d)", c.CorruptWhere, c.CorruptBit)
 	}
-	// key buffer overwritten in place between two GCM calls
-	{
-		kb := append([]byte(nil), c.Key...)
-		for i := range kb {
-			kb[i] ^= byte(0x23 + 11*i)
-		}
-		sealedOld := make([]byte, encLen)
-		_ = cryptz.AESGCMEncrypt(sealedOld, c.Plain, kb, c.Nonce, c.AAD)
-		for i := range kb {
-			kb[i] ^= byte(0x39 + 5*i)
-		}
-		blkB, _ := aes.NewCipher(kb)
-		refB, _ := cipher.NewGCMWithNonceSize(blkB, len(c.Nonce))
-		wantB := refB.Seal(nil, c.Nonce, c.Plain, c.AAD)
-		want = sealedOld
-		dstB := make([]byte, encLen)
-		if err := cryptz.AESGCMEncrypt(dstB, c.Plain, kb, c.Nonce, c.AAD); err != nil || !bytes.Equal(dstB, wantB) {
-			return fmt.Errorf("AESGCMEncrypt after the key buffer was overwritten in place = %x, %v want %x (stale cached key?)", dstB, err, wantB)
-		}
-		// a message sealed under the OLD key must not open under the new one
-		if err := cryptz.AESGCMDecrypt(make([]byte, len(c.Plain)), want, kb, c.Nonce, c.AAD); err == nil {
-			return fmt.Errorf("AESGCMDecrypt opened a message sealed under the old key after the key buffer was overwritten in place")
-		}
-	}
 	// same key again, other nonce size: results must still equal the standard library's (no state kept between calls)
 	if len(c.Nonce2) > 0 {
 		ref2, err2 := cipher.NewGCMWithNonceSize(blk, len(c.Nonce2))
@@ -356,6 +332,30 @@ func runGCM(c gcmCase, r *pb.Rec) error {
 			return fmt.Errorf("AESGCMEncrypt with an empty nonce: error %v, panic %v (want an error)", e2, perr)
 		}
 		r.Class("empty nonce rejected")
+	}
+	// key buffer overwritten in place between two GCM calls
+	{
+		kb := append([]byte(nil), c.Key...)
+		for i := range kb {
+			kb[i] ^= byte(0x23 + 11*i)
+		}
+		sealedOld := make([]byte, encLen)
+		_ = cryptz.AESGCMEncrypt(sealedOld, c.Plain, kb, c.Nonce, c.AAD)
+		for i := range kb {
+			kb[i] ^= byte(0x39 + 5*i)
+		}
+		blkB, _ := aes.NewCipher(kb)
+		refB, _ := cipher.NewGCMWithNonceSize(blkB, len(c.Nonce))
+		wantB := refB.Seal(nil, c.Nonce, c.Plain, c.AAD)
+		want = sealedOld
+		dstB := make([]byte, encLen)
+		if err := cryptz.AESGCMEncrypt(dstB, c.Plain, kb, c.Nonce, c.AAD); err != nil || !bytes.Equal(dstB, wantB) {
+			return fmt.Errorf("AESGCMEncrypt after the key buffer was overwritten in place = %x, %v want %x (stale cached key?)", dstB, err, wantB)
+		}
+		// a message sealed under the OLD key must not open under the new one
+		if err := cryptz.AESGCMDecrypt(make([]byte, len(c.Plain)), want, kb, c.Nonce, c.AAD); err == nil {
+			return fmt.Errorf("AESGCMDecrypt opened a message sealed under the old key after the key buffer was overwritten in place")
+		}
 	}
 	r.ClassIf(c.CorruptWhere == 1 && len(ct) > 0 && c.CorruptBit%(len(ct)*8)/8 >= len(ct)-16, "tag bit flipped")
 	r.ClassIf(c.CorruptWhere == 1, "ciphertext/tag corrupted")
